@@ -86,7 +86,7 @@ def main(tier, replay=None):
     # ---- 1c. C13: change one recorded post-snapshot
     rep = Report("SELFTEST", "quick")
     hs = c13.gen_histories(rep, rd, 4)
-    traces = [c13.run_case({"id": i + 1, "hist": h, "seed": 0}) for i, h in enumerate(hs[:2])]
+    traces = [c13.run_case({"id": i + 1, "hist": h["hist"], "focus": h["focus"], "seed": 0}) for i, h in enumerate(hs[:2])]
     t2 = copy.deepcopy(traces[0])
     e = next(x for x in t2["ev"] if not x["skipped"])
     e["post"][0] += 1000
